@@ -762,6 +762,14 @@ example : classifyIniLine IV.Gen.IniChars.alphabet "max;size = a;b ;c".toList
     classifyIniLine IV.Gen.IniChars.alphabet "comment # in key: value".toList
       = .opt ⟨"comment # in key".toList, some "value".toList⟩ true := by decide
 
+/-- leading backslashes of a value, and of a continuation line, come back exactly; only the trailing
+    continuation backslash (and trailing blanks) of each line is dropped -/
+example : classifyIniLine IV.Gen.IniChars.alphabet "path = \\\\fileserver\\public\\docs".toList
+      = .opt ⟨"path".toList, some "\\\\fileserver\\public\\docs".toList⟩ true ∧
+    classifyIniLine IV.Gen.IniChars.alphabet "x = \\ leading".toList = .opt ⟨"x".toList, some "\\ leading".toList⟩ true ∧
+    parseIni IV.Gen.IniChars.alphabet ["[s]".toList, "k = a \\".toList, "   \\d+\\.\\d+ \\".toList, "  \\\\x".toList]
+      = some [⟨"s".toList, [⟨"k".toList, some "a \\d+\\.\\d+ \\\\x".toList⟩]⟩] := by decide
+
 /-- a comment line — blanks in front or not, whatever it contains — is never an option -/
 theorem ini_comment_line_never_option (semi : Bool) (text : Str) (indent : Nat) :
     classifyIniLine IV.Gen.IniChars.alphabet (renderIniItem (.comment semi text indent)) = .comment :=
